@@ -31,7 +31,8 @@ REQUIRED = ["contract:Assertion.set_p_values", "contract:Audit.summarize_status"
             "p_equal_to_limit_confirmed", "second_call_same_length_different_data", "contest_meets_neighbours_limit_not_own",
             "params_silent", "params_rejected", "proved_sticky_observed",
             "test_objects_hold_another_bound_before_call", "tests_configured_with_random_order_false",
-            "mixed_audit_polling_contest_among_comparison_contests", "status_asked_for_copied_contests_with_other_limits"]
+            "mixed_audit_polling_contest_among_comparison_contests", "status_asked_for_copied_contests_with_other_limits",
+            "reset_from_a_state_with_p_values_but_empty_histories"]
 ASSUMPTIONS = ["samples have at least one observation per assertion", "summarize_status prints: stdout is swallowed, not parsed"]
 N_CASES = {"quick": 9600, "thorough": 80000}
 
@@ -303,6 +304,14 @@ def run_case(es, rec):
                     return
                 ok, done = rec.guard("c09.call:summarize_status", audit.summarize_status, sim.contests)
             if rng.random() < 0.4:
+                if rng.random() < 0.4:
+                    # a state a risk function that reports no history leaves behind (or p-values and flags set through
+                    # the constructor): measured risk and confirmation present, history empty.  Reset is from ANY state
+                    for con in sim.contests.values():
+                        for j, asn in enumerate(con.assertions.values()):
+                            if j % 2 == 0:
+                                asn.p_history = []
+                    rec.count("reset_from_a_state_with_p_values_but_empty_histories")
                 ok, _ = rec.guard("c09.call:reset_p_values", A.reset_p_values, sim.contests)
                 if not ok:
                     return
